@@ -3,6 +3,7 @@ package main
 import (
 	"fmt"
 	"os"
+	"strings"
 
 	"verif/engine/gosx"
 )
@@ -52,5 +53,25 @@ func init() {
 		c.runEquiv(genC12E(tier, seed), "z3", agg, st)
 		agg.Into(c, "")
 		return c.Finish(false)
+	}
+}
+
+func init() {
+	checks["NATIVEH"] = func(tier string, seed int64) int {
+		c := newCtx("NATIVEH", tier, seed, "other", nil)
+		defer c.Close()
+		var resp map[string]interface{}
+		vec := map[string]uint64{}
+		for _, kv := range strings.Fields(os.Getenv("VEC")) {
+			var k string
+			var v uint64
+			i := strings.Index(kv, "=")
+			k = kv[:i]
+			fmt.Sscan(kv[i+1:], &v)
+			vec[k] = v
+		}
+		out, err := c.Native.RunOnce(map[string]interface{}{"Op": "harness", "Harness": os.Getenv("HARNESS"), "Src": os.Getenv("SRC"), "Vec": vec}, &resp, 60)
+		fmt.Println(out, err)
+		return 0
 	}
 }
